@@ -877,8 +877,8 @@ class Engine:
 
     def tier_cfg(self, tier):
         if tier == "quick":
-            return {"episodes": 4000}
-        return {"episodes": None, "budget_s": 600.0, "min_episodes": 4000}
+            return {"episodes": 16000}
+        return {"episodes": None, "budget_s": 600.0, "min_episodes": 16000}
 
     def episode(self, task):
         tier = task.get("tier", "quick")
